@@ -63,10 +63,12 @@ def _shards(flavours: tuple[str, ...], cts: tuple[str, ...] = CONN_TYPES) -> lis
     # C04 view: the same runs at max_connections=1 with the open-stream counter
     # (a connection dropped from the pool must not keep its socket while the
     # freed place is used to open another one)
-    per_prop={"C04": {"quick": [{"ct": ct, "flavour": fl, "N1": True}
+    per_prop={"C01": {"quick": [{"ct": ct, "flavour": fl, "_pre": "kind == 1"} for ct, fl in (("h11", "sync"), ("h2", "async"), ("h2prior", "sync"))],
+                      "thorough": [{"ct": ct, "flavour": fl, "_pre": "kind >= 1"} for ct in ("h11", "h11tls", "h2", "h2prior", "tunnel") for fl in ("sync", "async")]},
+              "C04": {"quick": [{"ct": ct, "flavour": fl, "N1": True}
                                 for ct, fl in (("h11", "sync"), ("h2", "async"), ("h2prior", "sync"), ("tunnel", "async"))],
                       "thorough": [dict(sh, N1=True) for sh in _shards(("sync", "async"))]}},
-    also=("C04", "C06"),
+    also=("C04", "C06", "C01"),
 )
 def fault(k: int, kind: int, drop: bool) -> None:
     """
@@ -83,6 +85,18 @@ def fault(k: int, kind: int, drop: bool) -> None:
                    fault_k=k, fault_kind=kind, max_connections=N)
         counter = StreamCounter(su, N, f"fault:{su.ct}:N{N}")
         _exchange(su, drop)
+        # C01: an exchange that did not finish in both directions leaves a connection that is closed and never used
+        # again - in particular nothing more is written to a stream on which a write was cut short
+        su.net.fault_k = -1
+        f2 = su.api.request(su.pool, "GET", su.url("t2"), extensions={"timeout": dict(TIMEOUTS)})
+        for sk in su.net.socks:
+            torn = getattr(sk, "torn_at", None)
+            if torn is not None:
+                later = [e for e in su.net.ledger[torn:] if e["op"] == "write" and e["sock"] == sk.id and e.get("delivered")]
+                P.check(not later, "nothing-written-to-a-stream-after-a-write-on-it-was-cut-short",
+                        lambda: f"fault:{su.ct}:reused-after-torn-write", prop="C01")
+                P.cover("torn-write")
+        P.check(f2.ok or f2.documented(), "follow-up-request-terminates-with-a-documented-outcome", lambda: f"fault:{su.ct}:follow-up:{f2.kind()}", prop="C01")
         su.quiescent_slot_oracle()
         su.stream_oracle()
         su.probe_capacity(2)
